@@ -365,6 +365,13 @@ def elect_gate(run):
                     'or cfer\'s hasSurplus, is no longer what lean/Props/C04Loop.lean proves the model\'s election step to evaluate')
 
 
+def moves_gate(run):
+    return gen_gate(run, 'translator_moves', 'gen_moves', 'table',
+                    'Gen.moveTable = C06.moveTable by rfl; tstep_untouched, tstep_touched, tstep_touches_iff (lean/Props/C06Moves.lean)',
+                    'the filtered iterations over E.ballots in the rule modules (which ballots a transfer touches), extracted, are no longer the table of '
+                    'lean/Props/C06Moves.lean')
+
+
 def choice_gate(run):
     return gen_gate(run, 'translator_choice', 'gen_choice', 'table',
                     'Gen.choiceTable = C07.choiceTable by rfl; low_row_is_the_lowest, high_row_is_the_highest (lean/Props/C07Choice.lean)',
@@ -684,7 +691,7 @@ def C03(run):
     count_property(run, dict(rules=STAT + ['wigm', 'cfer-batch', 'wigm-prf-batch', 'mpls', 'scotland'],
                              keys=['C04q', 'C06r', 'C07b', 'C07l', 'C07t', 'C07s'], proj=proj_C03, model_is_spec=True,
                              options_fn=wigm_fixed4, quick=9000, thorough=150000,
-                             extra_gate=lambda run: quota_gate(run) + formula_gate(run) + guard_gate(run) + transfer_gate(run) + keys_gate(run) + select_gate(run) + status_gate(run) + tie_gate(run) + elect_gate(run) + choice_gate(run)))
+                             extra_gate=lambda run: quota_gate(run) + formula_gate(run) + guard_gate(run) + transfer_gate(run) + keys_gate(run) + select_gate(run) + status_gate(run) + tie_gate(run) + elect_gate(run) + choice_gate(run) + moves_gate(run)))
 
 
 @prop('C04')
@@ -696,7 +703,7 @@ def C04(run):
 
 @prop('C06')
 def C06(run):
-    count_property(run, dict(rules=gen.GREGORY, keys=['C06', 'C06r'], proj=proj_C06, quick=5000, thorough=150000, extra_gate=lambda run: formula_gate(run) + transfer_gate(run),
+    count_property(run, dict(rules=gen.GREGORY, keys=['C06', 'C06r'], proj=proj_C06, quick=5000, thorough=150000, extra_gate=lambda run: formula_gate(run) + transfer_gate(run) + moves_gate(run),
                              families=['plain', 'chains', 'on_quota', 'big', 'sure_losers']))
 
 
